@@ -267,6 +267,8 @@ def r5_4b(ctx):
 
 
 def run(ctx):
+    from . import c16
+    ctx.run_rule("R5.6", "execution and validation use the same effective configuration (e.g. output_stream): layer order at every merge call site, the executor keeps the test case layer above the document defaults (shared with C16 R16.3) [E-SITE]", c16.r16_3, floor=9)
     ctx.run_rule("R5.1", "validate: no ExitStatus variant other than Code/Detached reaches Ok(()); on Code every path to Ok takes the `exit_code == self.exit_code.unwrap_or(0)` edge [E-PATH]", r5_1, floor=5)
     ctx.run_rule("R5.2", "validate: InvalidExitCode is decided before and independently of the diff [E-PATH]", r5_2, floor=2)
     ctx.run_rule("R5.3", "validate: the diffed stream is output.stderr exactly on output_stream == Some(Stderr), output.stdout otherwise [E-FLOW]", r5_3, floor=4)
